@@ -8,8 +8,8 @@ Require Import Laze.model.Base Laze.model.Env Laze.model.Path Laze.model.Allow L
 Open Scope list_scope.
 
 (* field-wise law of defaults: lists of D first, then the module's own; scalars are its own *)
-Theorem C17_defaults_fieldwise : forall bd y ctx is_binary filename (D : module) m,
-  convert_module bd y ctx is_binary filename (Some D) = Ok m ->
+Theorem C17_defaults_fieldwise : forall bd y ctx is_binary filename root (D : module) m,
+  convert_module bd y ctx is_binary filename root (Some D) = Ok m ->
   exists sel uses depends,
     deps_of_specs (odflt [] (ym_selects y)) = Ok sel /\
     rmapM dependency_from_string (odflt [] (ym_uses y)) = Ok uses /\
@@ -23,7 +23,12 @@ Theorem C17_defaults_fieldwise : forall bd y ctx is_binary filename (D : module)
     m_build m = ym_build y /\
     m_is_build_dep m = (match ym_download y with Some _ => true | None => ym_is_build_dep y end) /\
     m_is_global_build_dep m = ym_is_global_build_dep y /\ m_download m = ym_download y /\
-    m_name m = match ym_name y with Some n => n | None => parent filename end /\
+    m_name m = match ym_name y with
+               | Some n => n
+               | None => match root with
+                         | Some r => match strip_prefix (parent filename) r with Some x => x | None => parent filename end
+                         | None => parent filename end
+               end /\
     m_context_name m = match ctx with Some c => c | None => m_context_name D end /\
     m_notify_all m = (m_notify_all D || ym_notify_all y) /\
     (ym_download y = None -> m_build_dep_files m = m_build_dep_files D).
@@ -65,29 +70,36 @@ Theorem C17_rejects_unknown_parent : forall b,
 Proof. exact unknown_parent_rejected. Qed.
 Print Assumptions C17_rejects_unknown_parent.
 
-(* each lazefile reachable from the project file is loaded once: the work-list ends with distinct
-   file names, the project file first, and the documents handed on are, in order, the documents of
-   exactly these files, each tagged with its file *)
+(* each lazefile reachable from the project file is loaded once per import root: the work-list ends
+   with distinct keys (file name, import root), the project file first, and the documents handed on
+   are, in order, the documents of exactly these entries, each tagged with its file and root *)
 Theorem C17_files_loaded_once : forall (t : ytree) pf fuel ds (fs : list finc),
-  load_files fuel t [(pf, None)] 0 [] = Ok (ds, fs) ->
-  NoDup (map fst fs) /\
-  map (fun d => (ld_file d, ld_doc d)) ds = docs_of_files t fs /\
-  (exists ext, fs = (pf, None) :: ext).
+  load_files fuel t [(pf, (None, None))] 0 [] = Ok (ds, fs) ->
+  NoDup (map finc_key fs) /\
+  map (fun d => (ld_file d, ld_root d, ld_doc d)) ds = docs_of_files t fs /\
+  (exists ext, fs = (pf, (None, None)) :: ext).
 Proof. exact load_files_once. Qed.
 Print Assumptions C17_files_loaded_once.
 
-(* ... so the number of loaded documents tagged with a file is the number of documents that file
-   has in the tree (listed by however many subdirs:/includes: entries), or 0 if it is not reached *)
-Theorem C17_loaded_doc_count : forall (t : ytree) pf fuel ds (fs : list finc) f,
-  load_files fuel t [(pf, None)] 0 [] = Ok (ds, fs) ->
-  length (filter (fun d => str_eqb (ld_file d) f) ds) =
-  if existsb (fun inc : finc => str_eqb (fst inc) f) fs then length (odflt [] (alookup f t)) else 0.
+(* without `imports:` there is only one root: each lazefile reachable through subdirs:/includes: is
+   loaded once, whoever lists it and however often *)
+Theorem C17_files_loaded_once_no_imports : forall (t : ytree) pf fuel ds (fs : list finc),
+  no_imports t -> load_files fuel t [(pf, (None, None))] 0 [] = Ok (ds, fs) -> NoDup (map fst fs).
+Proof. exact load_files_once_no_imports. Qed.
+Print Assumptions C17_files_loaded_once_no_imports.
+
+(* ... so the number of loaded documents tagged with a file (and root) is the number of documents that
+   file has in the tree (listed by however many subdirs:/includes: entries), or 0 if it is not reached *)
+Theorem C17_loaded_doc_count : forall (t : ytree) pf fuel ds (fs : list finc) f r,
+  load_files fuel t [(pf, (None, None))] 0 [] = Ok (ds, fs) ->
+  length (filter (fun d => str_eqb (ld_file d) f && ostr_eqb (ld_root d) r) ds) =
+  if existsb (fun inc : finc => str_eqb (fst inc) f && ostr_eqb (finc_root inc) r) fs then length (odflt [] (alookup f t)) else 0.
 Proof. exact loaded_doc_count. Qed.
 Print Assumptions C17_loaded_doc_count.
 
 (* ${relpath} and ${srcdir} of a module are the directory of the file it is written in *)
-Theorem C17_relpath_is_file_directory : forall build_dir y context is_binary filename defaults m,
-  convert_module build_dir y context is_binary filename defaults = Ok m ->
+Theorem C17_relpath_is_file_directory : forall build_dir y context is_binary filename root defaults m,
+  convert_module build_dir y context is_binary filename root defaults = Ok m ->
   m_relpath m = Some (relpath_of filename) /\ m_defined_in m = Some filename /\
   (ym_srcdir y = None -> ym_download y = None ->
    m_srcdir m = Some (if str_eqb (relpath_of filename) [ch_dot] then [] else relpath_of filename)) /\
@@ -102,12 +114,32 @@ Print Assumptions C17_relpath_is_file_directory.
 Example C17_ex_once :
   let d0 := {| d_contexts := None; d_builders := None; d_modules := None; d_apps := None;
                d_includes := Some [S_ "sub/laze.yml"]; d_subdirs := Some [S_ "sub"; S_ "sub"];
-               d_defaults_module := None; d_defaults_app := None |} in
+               d_defaults_module := None; d_defaults_app := None; d_imports := None |} in
   let d1 := {| d_contexts := None; d_builders := None; d_modules := None; d_apps := None;
                d_includes := None; d_subdirs := None;
-               d_defaults_module := None; d_defaults_app := None |} in
-  match load_files 20 [(S_ "laze-project.yml", [d0]); (S_ "sub/laze.yml", [d1; d1])] [(S_ "laze-project.yml", None)] 0 [] with
+               d_defaults_module := None; d_defaults_app := None; d_imports := None |} in
+  match load_files 20 [(S_ "laze-project.yml", [d0]); (S_ "sub/laze.yml", [d1; d1])] [(S_ "laze-project.yml", (None, None))] 0 [] with
   | Ok (ds, fs) => map ld_file ds = [S_ "laze-project.yml"; S_ "sub/laze.yml"; S_ "sub/laze.yml"]
   | _ => False
   end.
 Proof. vm_compute. reflexivity. Qed.
+
+(* non-vacuity with imports: lib/ is imported (found as lib/laze.yml because lib/laze-lib.yml does not
+   exist) and also listed under subdirs: — it is loaded once under each root, and the unnamed module of
+   the imported instance is named relative to the import root *)
+Example C17_ex_import :
+  let d0 := {| d_contexts := None; d_builders := None; d_modules := None; d_apps := None;
+               d_includes := None; d_subdirs := Some [S_ "lib"];
+               d_defaults_module := None; d_defaults_app := None; d_imports := Some [S_ "lib"] |} in
+  let d1 := {| d_contexts := None; d_builders := None; d_modules := None; d_apps := None;
+               d_includes := None; d_subdirs := None;
+               d_defaults_module := None; d_defaults_app := None; d_imports := None |} in
+  let t := [(S_ "laze-project.yml", [d0]); (S_ "lib/laze.yml", [d1])] in
+  match load_files 20 t [(S_ "laze-project.yml", (None, None))] 0 [] with
+  | Ok (ds, fs) => map (fun d => (ld_file d, ld_root d)) ds =
+                     [(S_ "laze-project.yml", None); (S_ "lib/laze.yml", None); (S_ "lib/laze.yml", Some (S_ "lib"))]
+                   /\ absent_of t ds = [S_ "lib/laze-lib.yml"]
+                   /\ m_name (init_module None None false (S_ "lib/laze.yml") (Some (S_ "lib")) None) = []
+  | _ => False
+  end.
+Proof. vm_compute. repeat split; reflexivity. Qed.
